@@ -273,11 +273,11 @@ func tmpRoot() string {
 // freezer goroutine is parked at the start of its first iteration.
 func open(inner ethdb.KeyValueStore, root string) (*inst, error) {
 	d := newDriver()
-	// Open prints a "Chain metadata" table to os.Stdout on its error paths
-	saved := os.Stdout
+	// Open prints a "Chain metadata" table to os.Stderr on its error paths
+	saved := os.Stderr
 	if null, e := os.OpenFile(os.DevNull, os.O_WRONLY, 0); e == nil {
-		os.Stdout = null
-		defer func() { os.Stdout = saved; null.Close() }()
+		os.Stderr = null
+		defer func() { os.Stderr = saved; null.Close() }()
 	}
 	db, err := rawdb.Open(&gateKV{KeyValueStore: inner, d: d}, rawdb.OpenOptions{Ancient: root})
 	if err != nil {
